@@ -133,12 +133,16 @@ Definition wfb (s : tstate) : bool :=
   | _ => false
   end.
 
-(* sweep restricted to well-formed states (lazy in the body) *)
+(* sweep restricted to well-formed states (the test is made once per state) *)
 Definition wsweep (P : tstate -> call -> fault -> bool) : bool :=
-  sweep (fun s c f => if wfb s then P s c f else true).
+  forallb (fun s => if wfb s then forallb (fun c => forallb (fun f => P s c f) all_faults) all_calls
+                    else true) all_states.
 Lemma wsweep_sound P : wsweep P = true -> forall s c f, wfb s = true -> P s c f = true.
 Proof.
-  intros H s c f W. pose proof (sweep_sound _ H s c f) as Q. cbv beta in Q. rewrite W in Q. exact Q.
+  unfold wsweep. intros H s c f W.
+  rewrite forallb_forall in H. specialize (H s (in_all_states s)). rewrite W in H.
+  rewrite forallb_forall in H. specialize (H c (in_all_calls c)).
+  rewrite forallb_forall in H. exact (H f (in_all_faults f)).
 Qed.
 (* lazy implication *)
 Notation "a ==> b" := (if a then b else true) (at level 70, only parsing).
@@ -478,14 +482,27 @@ Definition fatal_absorbing_b (s : tstate) (c : call) (f : fault) : bool :=
   tst_eqb (st s) FATAL ==>
     (tstate_eqb (api_st s c f) s && is_nil (api_req s c f)
      && (is_error (api_res s c f) || match c with CtxExc => true | _ => false end)).
-Lemma fatal_absorbing_sweep : sweep fatal_absorbing_b = true.
+Definition fsweep (P : tstate -> call -> fault -> bool) : bool :=
+  forallb (fun s => if tst_eqb (st s) FATAL
+                    then forallb (fun c => forallb (fun f => P s c f) all_faults) all_calls
+                    else true) all_states.
+Lemma fatal_absorbing_fsweep : fsweep fatal_absorbing_b = true.
 Proof. vm_compute. reflexivity. Qed.
+Lemma fatal_absorbing_all s c f : fatal_absorbing_b s c f = true.
+Proof.
+  destruct (tst_eqb (st s) FATAL) eqn:F.
+  - pose proof fatal_absorbing_fsweep as H. unfold fsweep in H.
+    rewrite forallb_forall in H. specialize (H s (in_all_states s)). rewrite F in H.
+    rewrite forallb_forall in H. specialize (H c (in_all_calls c)).
+    rewrite forallb_forall in H. exact (H f (in_all_faults f)).
+  - unfold fatal_absorbing_b. rewrite F. reflexivity.
+Qed.
 
 Lemma fatal_absorbing_step s c f :
   st s = FATAL ->
   api_st s c f = s /\ api_req s c f = [] /\ (is_error (api_res s c f) = true \/ c = CtxExc).
 Proof.
-  intros F. pose proof (sweep_sound _ fatal_absorbing_sweep s c f) as P.
+  intros F. pose proof (fatal_absorbing_all s c f) as P.
   unfold fatal_absorbing_b in P. rewrite F in P. simpl in P.
   apply andb_prop in P. destruct P as [P R]. apply andb_prop in P. destruct P as [P Q].
   apply eqb_of_true in P. split; [exact P|]. split.
